@@ -62,6 +62,11 @@ type action struct {
 	Wmc     string `json:"wmc"`
 	Removed int    `json:"removed"`
 	Back    int    `json:"back"`
+	// Backset: the unlinked-but-not-durably-removed logs that are there again after this crash (nil in
+	// behaviours recorded before the specification had it: the engine then picks a subset itself).
+	Backset []int `json:"backset"`
+	// F: the log removed by a RemoveFile step.
+	F int `json:"f"`
 }
 
 type step struct {
@@ -74,6 +79,15 @@ type step struct {
 	Pend int     `json:"pend"`
 	// Pruned is the model's prunedUpToHeight; the engine uses it only to place filler prunes.
 	Pruned int `json:"pruned"`
+	// Files: the log files of the directory after the step (nil in behaviours recorded before the
+	// specification had it: no file-level comparison then); Nextf: the writer's next log number.
+	Files []int `json:"files"`
+	Nextf int   `json:"nextf"`
+	// Early / Leak (Rotate steps): the alternative reference-count rules (WalMBT.AltRules) under which
+	// this cleanup would remove a log the specification keeps / keep one it removes.
+	Early []string `json:"early"`
+	Leak  []string `json:"leak"`
+	Spans int      `json:"spans"` // live heights with entries in more than one log
 }
 
 type options struct {
@@ -83,6 +97,8 @@ type options struct {
 	Flips   int   `json:"flips"`   // corruptions per byte in a sweep (1: one random bit; 2: also all bits)
 	Subsets bool  `json:"subsets"` // all subsets of unlinked-but-not-durably-removed files
 	Fat     bool  `json:"fat"`     // the ballast is ONE batch of several 32 KiB blocks (a multi-chunk record), cut at sampled offsets
+	// Interval: CleanupInterval of the configuration that generated THIS behaviour (0: the input's).
+	Interval int `json:"interval"`
 }
 
 type behaviour struct {
@@ -324,6 +340,7 @@ type runner struct {
 	failSync  bool
 	imgs      map[string]string
 	removed   []string
+	rmNames   []int  // numbers of the logs unlinked by this call, in order
 	file      string // log written by this call
 	preSize   int64  // its size before the call = last synced offset
 	postSize  int64
@@ -399,8 +416,107 @@ func (r *runner) onRemove(name string) {
 
 func (r *runner) afterRemove(name string) {
 	if r.armed {
+		r.mu.Lock()
+		r.rmNames = append(r.rmNames, logNum(filepath.Base(name)))
+		r.mu.Unlock()
 		r.snap("removed:" + filepath.Base(name))
 	}
+}
+
+// ---------------------------------------------------------------- the directory's log files
+
+func logName(n int) string { return fmt.Sprintf("%06d.log", n) }
+
+func logNum(base string) int {
+	n := -1
+	if strings.HasSuffix(base, ".log") {
+		if _, err := fmt.Sscanf(strings.TrimSuffix(base, ".log"), "%d", &n); err != nil {
+			return -1
+		}
+	}
+	return n
+}
+
+// realLogs: the numbers of the NNNNNN.log files of a disk's WAL directory, ascending.
+func realLogs(disk string) []int {
+	es, err := os.ReadDir(walstore.DefaultWALDir(disk))
+	if err != nil {
+		return nil
+	}
+	var ns []int
+	for _, e := range es {
+		if n := logNum(e.Name()); n >= 0 {
+			ns = append(ns, n)
+		}
+	}
+	sort.Ints(ns)
+	return ns
+}
+
+func minus(a, b []int) []int {
+	in := map[int]bool{}
+	for _, x := range b {
+		in[x] = true
+	}
+	out := []int{}
+	for _, x := range a {
+		if !in[x] {
+			out = append(out, x)
+		}
+	}
+	return out
+}
+
+// compareFiles: the log files of the live directory against the specification's `fex` after step s.
+// The one admissible difference is the log the writer will create next (s.Nextf): the engine's own
+// flushes (ballast, filler prune records) may have created it before the specification's next Flush.
+// A log of the specification that is not there was removed although a live height still has entries
+// in it or although no cleanup was due; a log that is there and not in the specification was kept by
+// a cleanup that had to remove it.
+func (r *runner) compareFiles(s step, stepNo int, ctx string) {
+	if r.dead || !r.filesComparable() {
+		return
+	}
+	model := append([]int{}, s.Files...)
+	sort.Ints(model)
+	real := realLogs(r.dir)
+	r.out.Count("file_sets_compared", 1)
+	if missing := minus(model, real); len(missing) > 0 {
+		r.diverge("wal-files:"+ctx+":log-removed-too-early",
+			fmt.Sprintf("after %s the WAL directory lacks log(s) %v that the specification still has (the cleanup removes only logs below the lowest one referenced by a live height)", ctx, missing),
+			stepNo, model, real)
+		return
+	}
+	if extra := minus(minus(real, model), []int{s.Nextf}); len(extra) > 0 {
+		r.diverge("wal-files:"+ctx+":obsolete-log-kept",
+			fmt.Sprintf("after %s the WAL directory still holds log(s) %v that the specification's cleanup removed (below the lowest log referenced by a live height)", ctx, extra),
+			stepNo, model, real)
+	}
+}
+
+// filesComparable: the behaviour carries the specification's file sets, and the engine wrote no ballast
+// (entries of a height the specification does not know and that is never pruned: they keep the first
+// log referenced for ever).
+func (r *runner) filesComparable() bool {
+	return len(r.b.Steps) > 0 && r.b.Steps[0].Files != nil && r.b.Opts.Ballast == 0 && !r.b.Opts.Fat
+}
+
+// backNames: the logs a Crash entry brings back, as far as they are in the graveyard of the image.
+func backNames(img string, a action, fallback func() []string) []string {
+	if a.Backset == nil {
+		return fallback()
+	}
+	have := map[string]bool{}
+	for _, n := range graveNames(img) {
+		have[n] = true
+	}
+	var out []string
+	for _, n := range a.Backset {
+		if have[logName(n)] {
+			out = append(out, logName(n))
+		}
+	}
+	return out
 }
 
 func (r *runner) onWrite(f *hfile, p []byte) (int, error) {
@@ -445,6 +561,13 @@ func (r *runner) onSync(f *hfile) error {
 
 func (r *runner) replayInput() any {
 	return vh.J{"behaviours": []behaviour{*r.b}, "interval": r.in.Interval}
+}
+
+func (r *runner) interval() int {
+	if r.b.Opts.Interval > 0 {
+		return r.b.Opts.Interval
+	}
+	return r.in.Interval
 }
 
 func (r *runner) diverge(key, what string, stepNo int, exp, obs any) {
@@ -809,7 +932,7 @@ func (r *runner) dropImages() {
 	for _, p := range r.removed {
 		os.RemoveAll(p)
 	}
-	r.imgs, r.removed = map[string]string{}, nil
+	r.imgs, r.removed, r.rmNames = map[string]string{}, nil, nil
 }
 
 // prime brings the real prune-record counter to 256 - interval with prune records of heights
@@ -836,7 +959,7 @@ func (r *runner) primeIfCleanupAhead(from int, modelPruned int) {
 	if r.lastFiller > base {
 		base = r.lastFiller
 	}
-	for k := 0; k < realInterval-r.in.Interval; k++ {
+	for k := 0; k < realInterval-r.interval(); k++ {
 		base++
 		must(r.st.DeleteWALEntries(base))
 		if err := r.st.Flush(); err != nil {
@@ -1006,15 +1129,19 @@ func (r *runner) run() (steps int) {
 			i = j
 		case "Crash": // between two calls
 			r.checkIdleImages(i, [][][]int{prevLive}, "crash@idle")
-			subs := r.graveSubsets(r.dir)
-			r.adopt(r.dir, restoreFromGrave(subs[r.rng.Intn(len(subs))]))
+			r.adopt(r.dir, restoreFromGrave(backNames(r.dir, s.A, func() []string {
+				subs := r.graveSubsets(r.dir)
+				return subs[r.rng.Intn(len(subs))]
+			})))
 			r.out.Count("crashes", 1)
+			r.compareFiles(s, i, "crash@idle")
 			i++
 		case "Open":
 			if !r.open(i, "after-"+ss[i-1].A.Name+"@"+ss[i-1].A.At+"/"+ss[i-1].A.Tailc) {
 				return i
 			}
 			r.compareMem(s.Live, i, "Open")
+			r.compareFiles(s, i, "Open")
 			r.primeIfCleanupAhead(i+1, s.Pruned)
 			i++
 		default:
@@ -1164,11 +1291,59 @@ func (r *runner) call(i, j int, before [][]int) {
 	if r.dead {
 		return
 	}
+	// the cleanup's decision itself: the logs the real call unlinked against the specification's
+	// RemoveFile steps (all of them when the call returned; those before the crash otherwise)
+	if committed && (cleanup || len(r.rmNames) > 0) && r.filesComparable() {
+		var modelRm []int
+		sensitive := false
+		for k := i + 1; k < j; k++ {
+			if ss[k].A.Name == "RemoveFile" {
+				modelRm = append(modelRm, ss[k].A.F)
+			}
+			if ss[k].A.Name == "Rotate" {
+				if len(ss[k].Early) > 0 {
+					sensitive = true
+					r.out.Count("cleanups_refcount_sensitive", 1)
+					for _, rule := range ss[k].Early {
+						r.out.Count("cleanups_sensitive_to:"+rule, 1)
+					}
+				}
+				if len(ss[k].Leak) > 0 {
+					r.out.Count("cleanups_leak_sensitive", 1)
+				}
+				if ss[k].Spans > 0 {
+					r.out.Count("cleanups_with_multi_log_heights", 1)
+				}
+			}
+		}
+		realRm := append([]int{}, r.rmNames...)
+		sort.Ints(realRm)
+		ctx := "cleanup"
+		if sensitive {
+			ctx = "cleanup-with-height-over-several-logs"
+		}
+		// (a crashed call: the real one ran on to its end and may have unlinked more than the specification
+		// had before the crash: only what the specification removed and the code did not is judged there;
+		// the images after every real unlink are read back above in either case)
+		if extra := minus(realRm, modelRm); len(extra) > 0 && !crashed {
+			r.diverge("wal-cleanup:"+ctx+":removes-log-the-specification-keeps",
+				fmt.Sprintf("the prune cleanup unlinked log(s) %v; the specification removes %v (only logs below the lowest one that a live height still references)", extra, modelRm),
+				i, modelRm, realRm)
+			return
+		}
+		if missing := minus(modelRm, realRm); len(missing) > 0 {
+			r.diverge("wal-cleanup:"+ctx+":keeps-obsolete-log",
+				fmt.Sprintf("the prune cleanup did not unlink log(s) %v that the specification removes (nothing live references them or any older log)", missing),
+				i, modelRm, realRm)
+			return
+		}
+	}
 
 	if !crashed {
 		if !isClose {
 			r.compareMem(last.Live, j-1, first.A.Name+"-"+outcomeOf(first, has))
 		}
+		r.compareFiles(last, j-1, "after-"+first.A.Name+"-"+outcomeOf(first, has))
 		// a crash right after the call returned
 		r.checkIdleImages(j-1, [][][]int{last.Live}, "after-"+first.A.Name+"-"+outcomeOf(first, has))
 		if cleanup && !isClose {
@@ -1218,7 +1393,7 @@ func (r *runner) call(i, j int, before [][]int) {
 		switch {
 		case c.Removed == 0 || len(r.removed) == 0:
 			img = r.imgs["rotated"]
-		case c.Removed >= has["RemoveFile"] || c.Removed > len(r.removed):
+		case c.Removed > len(r.removed): // the specification unlinked more logs than the code (judged above)
 			img = r.removed[len(r.removed)-1]
 		default:
 			img = r.removed[c.Removed-1]
@@ -1226,8 +1401,10 @@ func (r *runner) call(i, j int, before [][]int) {
 		if img == "" { // nothing was unlinked: the directory after the call is the rotated state
 			img = r.dir
 		}
-		subs := r.graveSubsets(img)
-		mods = append(mods, restoreFromGrave(subs[r.rng.Intn(len(subs))]))
+		mods = append(mods, restoreFromGrave(backNames(img, c, func() []string {
+			subs := r.graveSubsets(img)
+			return subs[r.rng.Intn(len(subs))]
+		})))
 	default:
 		panic("wal engine: crash at unknown point " + c.At)
 	}
@@ -1240,6 +1417,7 @@ func (r *runner) call(i, j int, before [][]int) {
 		mods = append(mods, restoreFromGrave(nil))
 	}
 	r.adopt(img, mods...)
+	r.compareFiles(last, j-1, "crash@"+c.At)
 }
 
 // strictEnd: pebble's log writer zero-fills the rest of a 32 KiB block when fewer than 11 bytes
